@@ -1879,5 +1879,21 @@ def constwrite(repo, facts=None):
                             "compiles for physical fields and not for write-through virtual fields", TEMPLATES, tp[tname]["line"], tname)
     if res.instances < 5:
         raise AnalysisError(f"only {res.instances} write methods recognised in the virtual-field templates")
+    # the text writers of the runtime's scalar views take the options by const reference (FlagView, the enum view and the
+    # generated views do; the reference documents it): with a non-const reference a const options object or a temporary
+    # (`x().WriteToTextStream(&s, ::emboss::TextOutputOptions())`) compiles for some field kinds only
+    nw = 0
+    for mm in re.finditer(r"\bvoid\s+WriteToTextStream\s*\(\s*Stream\s*\*\s*\w+\s*,\s*(const\s+)?(?:::emboss::)?TextOutputOptions\s*&\s*\w+\s*\)", prelude):
+        nw += 1
+        res.instances += 1
+        if not mm.group(1):
+            line = prelude[:mm.start()].count("\n") + 1
+            cls = re.findall(r"\bclass\s+(\w+)\s+final\s*\{", prelude[:mm.start()])
+            res.add(f"runtime/cpp/emboss_prelude.h|{cls[-1] if cls else '?'}|WriteToTextStream|options-non-const",
+                    f"{cls[-1] if cls else '?'}::WriteToTextStream takes `TextOutputOptions &` (non-const): a const options object or a "
+                    "temporary does not bind, while FlagView, enum and generated views take `const TextOutputOptions &`",
+                    "runtime/cpp/emboss_prelude.h", line, cls[-1] if cls else "")
+    if nw < 4:
+        raise AnalysisError(f"emboss_prelude.h: only {nw} WriteToTextStream methods recognised")
     res.analysed = [TEMPLATES, "runtime/cpp/emboss_prelude.h"]
     return res
